@@ -24,7 +24,7 @@ ASSUMPTIONS = [
     'values are non-dynamic unique ints/strings (the statement excludes dynamic values)',
     'Python attribute resolution (inspect.getattr_static along the MRO, getattr) is the reference',
 ]
-REQUIRED = {'agreement_checks': 20000, 'class_sets': 500, 'add_parameters': 180, 'watch_probes': 200, 'parameter_object_assignments': 55, 'class_sets_rejected': 80,
+REQUIRED = {'class_temporary_updates': 60, 'agreement_checks': 20000, 'class_sets': 500, 'add_parameters': 180, 'watch_probes': 200, 'parameter_object_assignments': 55, 'class_sets_rejected': 80,
             'class_sets_watcher_raises': 20}
 
 _st = {}
@@ -253,6 +253,27 @@ def run_case(idx, rng, P, rep):
                     K.param[n]
             reads_before.add(K.__name__)
             trace.append(('read', K.__name__, how))
+        elif c < 0.45 and rng.random() < 0.12:
+            # a temporary class-level update(): inside the block the class shows the temporary value, afterwards the previous
+            # one again - through attribute access and through the namespace alike, on the class and below it
+            gov = governing(K, Parameter)
+            names = [n for n in gov if n not in ('name', 'xy')]
+            if not names:
+                continue
+            n = rng.choice(names)
+            v = value_for(n, K)
+            before = getattr(K, n)
+            kinds.append('class_temporary_update')
+            rep.count('class_temporary_updates')
+            trace.append(('class_temporary_update', K.__name__, n, v, 'declares' if n in vars(K) else 'inherits'))
+            with (K.param.update(**{n: v}) if rng.random() < 0.5 else K.param.update({n: v})):
+                if getattr(K, n) != shows(K.param[n], v):
+                    viol('class/set-lost', f'with {K.__name__}.param.update({n}={v!r}): getattr gives {getattr(K, n)!r} inside the block')
+                verify('inside-temporary-class-update')
+            # (the block puts back what the class showed: a type that computes what it shows from what it is given is given that)
+            if getattr(K, n) not in (before, shows(K.param[n], before)):
+                viol('class/temporary-update-not-restored', f'after with {K.__name__}.param.update({n}={v!r}): getattr gives {getattr(K, n)!r}, '
+                     f'before the block {before!r}')
         elif c < 0.45:
             gov = governing(K, Parameter)
             names = [n for n in gov if n not in ('name', 'xy')]
